@@ -212,7 +212,9 @@ def _encode_loop(node, lid):
     # __pyvc_loop_enter__(lid, locals()) returns a dict of havocked locals, applied via exec-free assignment:
     # we assign each modified local explicitly: names come from the loop spec at run time, so we use a
     # generic update through a helper that returns a tuple in the order of `__pyvc_loop_names__(lid)`.
-    enter = ast.Expr(value=_call("__pyvc_loop_enter__", ast.Constant(lid), _locals()))
+    loaded = sorted({n.id for n in ast.walk(node) if isinstance(n, ast.Name) and isinstance(n.ctx, ast.Load)})
+    enter = ast.Expr(value=_call("__pyvc_loop_enter__", ast.Constant(lid), _locals(),
+                                 ast.List(elts=[ast.Constant(n) for n in loaded], ctx=ast.Load())))
     names = _assigned_names(node)
     hav = []
     for nm in sorted(names):
